@@ -71,6 +71,8 @@ def gen_cases(rng, tier):
              'fields': fields, 'star': rng.pick(['any', 'last', 'first']) if star else None,
              'mode': rng.pick(['inner', 'half-outer', 'half-outer', 'full-outer']),
              'source_delete': rng.chance(0.6)}
+        if not star and shape != 4 and rng.chance(0.3):
+            c['keynames'] = rng.pick([{'k': 'first name', 'k2': 'dept-id'}, {'k': 'emp no', 'k2': 'e-mail'}, {'k': 'k', 'k2': 'k 2'}])
         if i % 6 == 5:
             c['kind'] = 'join_self'
         cases.append(c)
@@ -110,7 +112,18 @@ def ordered_fields(case):
     return out
 
 
+def _rn(case, n):
+    return (case.get('keynames') or {}).get(n, n)
+
+
+def _rn_parts(case, parts):
+    return [[p[0], _rn(case, p[1]) if p[0] == 'f' else p[1]] for p in parts]
+
+
 def step_of(case):
+    if case.get('keynames'):
+        # the key fields carry names that are not identifiers (blanks, hyphens): renamed on the way in and back on the way out
+        case = dict(case, skey=_rn_parts(case, case['skey']), tkey=_rn_parts(case, case['tkey']), keynames=None)
     fields = dict((t, {'name': s_, 'aggregate': g}) for t, s_, g in case['fields'])
     if case['star']:
         fields['*'] = {'aggregate': case['star']}
@@ -125,9 +138,21 @@ def run_impl(case):
            {'name': 'T', 'fields': [{'name': n, 'type': t} for n, t in T_FIELDS], 'rows': rows_dec(case['T'])}]
     if case['kind'] == 'join_self':
         res = res[:1]
-    out = run_stream(res, [step_of(case)])
+    if case.get('keynames'):
+        for r_ in res:
+            for f in r_['fields']:
+                f['name'] = _rn(case, f['name'])
+            r_['rows'] = [dict((_rn(case, k), v) for k, v in row.items()) for row in r_['rows']]
+    # (also read with all resources taken first and the resources iterator let go before any row is read)
+    out = run_stream(res, [step_of(case)], collect=not case.get('big'))
     if 'error' in out:
         return {'error': out['error'], 'exc': out['exc']}
+    if case.get('keynames'):
+        back = dict((v, k) for k, v in case['keynames'].items())
+        out['rows'] = [[dict((back.get(k, k), v) for k, v in row.items()) for row in rows] for rows in out['rows']]
+        for d in out['dp']['resources']:
+            for f in d['schema']['fields']:
+                f['name'] = back.get(f['name'], f['name'])
     names = [d['name'] for d in out['dp']['resources']]
     ti = names.index('S' if case['kind'] == 'join_self' else 'T')
     rows = out['rows'][ti]
